@@ -62,7 +62,8 @@ def pick_marked_ranges(rng, mspans, k):
         chars = [(o + j, ch, r) for o, t, r in v for j, ch in enumerate(t)]
         reals = [i for i, (o, ch, r) in enumerate(chars) if r]
         if len(reals) < 2: continue
-        i = rng.choice(reals[:-1]); j = rng.choice([x for x in reals if x > i][:14])
+        # the range ends on a real character; it starts on a real character or on a virtual marker in front of one
+        i = rng.choice(reals[:-1]) if rng.random() < .6 else rng.randrange(0, reals[-1]); j = rng.choice([x for x in reals if x > i][:14])
         seg = chars[i:j + 1]
         if not any(not r for o, ch, r in seg): continue                                           # must cross a marker
         if any(ch in '{}<>' for o, ch, r in seg if not r): continue                               # CriticMarkup wrappers / metadata: not here
